@@ -1516,7 +1516,9 @@ fn bind_typed_parameter_list(
                 } else if param.old_typed_param().is_some() {
                     Type::ToDo
                 } else {
-                    panic!("You have found a bug in oq3_parser")
+                    // Array (reference) types are not supported yet in the ASG.
+                    context.insert_error(NotImplementedError, &param);
+                    Type::ToDo
                 };
                 let namestr = param.name().unwrap().string();
                 context.new_binding(namestr.as_ref(), &typ, &param)
